@@ -8,6 +8,7 @@ import CM.Model.Factory
 import CM.Model.Merge
 import CM.Model.CheckIds
 import CM.Model.FilterBag
+import CM.Model.GroupBag
 open Lean
 namespace CM
 
@@ -71,7 +72,13 @@ def opFactory (j : Json) : P Json := do
     pure (match filterConnect prev (.function "$FilterEdge" [] []) keys with
       | .ok b => Json.mkObj [("ok", bagToJsonSem b), ("wf", .bool b.wfB)]
       | .error e => bagErrToJson e)
+  let gs ← (← jArr (jFieldD j "groups" (.arr #[]))).mapM fun c => do
+    let prev ← bagOfJson c
+    pure (match groupByBag prev with
+      | .ok b => Json.mkObj [("ok", bagToJsonSem b), ("wf", .bool b.wfB)]
+      | .error e => bagErrToJson e)
   pure (Json.mkObj [("outs", .arr outs.toArray), ("caches", .arr cs.toArray), ("merges", .arr ms.toArray),
-    ("checkids", .arr ks.toArray), ("filters", .arr fs.toArray)])
+    ("checkids", .arr ks.toArray), ("filters", .arr fs.toArray),
+    ("groups", .arr gs.toArray)])
 
 end CM
